@@ -206,6 +206,7 @@ def run_files(ctx, out):
     quick = ctx.tier == "quick"
     d = ctx.work.fresh("c19files")
     lays = gen_layouts(rng, quick)
+    B_ = 4096
     files = []
     volatile = set()      # files whose extent list may change under our feet (writeback): direct oracle only
     for k, (size, segs) in enumerate(lays):
@@ -234,6 +235,23 @@ def run_files(ctx, out):
         files.append(p)
         volatile.add(p)
         out.count("preallocated_unsynced_files")
+    # more than one FIEMAP page of extents ALREADY on disk, plus blocks written a moment ago and not yet flushed (delayed
+    # allocation) that land on the second / third page of the map, at the end and in the middle
+    for (nsync, fresh) in ((40, [40]), (70, [70, 35]), (33, [33])):
+        p = os.path.join(d, "f%d" % len(files))
+        segs = [(2 * i * B_, (2 * i + 1) * B_) for i in range(nsync + 1) if i not in fresh]
+        size = (2 * (nsync + 1) + 1) * B_
+        fsutil.make_file(p, size, segs, tag=len(files) + 1, sync=True)
+        fd = os.open(p, os.O_WRONLY)
+        try:
+            for i in fresh:
+                os.pwrite(fd, fsutil.tagged_bytes(len(files) + 1, 2 * i * B_, B_), 2 * i * B_)
+        finally:
+            os.close(fd)          # no fsync
+        lays.append((size, sorted(segs + [(2 * i * B_, (2 * i + 1) * B_) for i in fresh])))
+        files.append(p)
+        volatile.add(p)
+        out.count("flushed_pages_plus_unflushed_blocks")
     # implementation
     r1 = subprocess.run([ctx.bins["probe"], "extents"] + files, capture_output=True, text=True, timeout=600)
     r2 = subprocess.run([ctx.bins["probe"], "segments"] + files, capture_output=True, text=True, timeout=600)
@@ -330,7 +348,7 @@ def run_files(ctx, out):
 def run(ctx, out):
     out.rule = ("merge: all sorted lists over a small offset universe + random lists (sorted/adjacent/touching/overlapping/"
                 "unsorted/near-2^64); non-trivial = >=2 extents with a touching or adjacent pair. files: real ext4 files "
-                "with 0..97 data ranges (FIEMAP pages of 32), data at start/end, odd sizes, data beyond 2^31 / 2^32 / 2^33 in sparse files of up to 8 GiB; non-trivial = >=1 data range. "
+                "with 0..97 data ranges (FIEMAP pages of 32), data at start/end, odd sizes, data beyond 2^31 / 2^32 / 2^33 in sparse files of up to 8 GiB, more than a page of flushed extents plus unflushed blocks on later pages; non-trivial = >=1 data range. "
                 "refused answers: lseek / FIEMAP failing with EINVAL EIO ENOSYS EOVERFLOW EBADF / EIO EINVAL EBADR ENOMEM at the n-th call of a walk. "
                 "distinct = distinct input list / layout.")
     run_merge(ctx, out)
